@@ -20,7 +20,7 @@ Requirements for the change:
       cd {wt} && /venv/bin/python -m pytest -q -p no:cacheprovider -x tests 2>&1 | tail -3
    (about 30 s; all 1353 tests pass on the unmodified tree). Run it and make sure.
 3. The bug must need something SPECIFIC to manifest — a particular multi-step sequence of operations, an unusual but legal input, a particular configuration or combination of options — not something ordinary single-call use would expose at once.
-4. Write a demonstration {wt}/_seed/demo.py: a small stand-alone program (run as `cd {wt} && PYTHONPATH={wt} /venv/bin/python _seed/demo.py`) that exits 0 on the ORIGINAL code and exits non-zero (assertion failure) with your change, showing that the property above is violated through the public API. Verify both: run it with your change applied, then `git stash`, run again, `git stash pop`.
+4. Write a demonstration {wt}/_seed/demo.py: a small stand-alone program (run as `cd {wt} && PYTHONPATH={wt} /venv/bin/python _seed/demo.py`) that exits 0 on the ORIGINAL code and exits non-zero (assertion failure) with your change, showing that the property above is violated through the public API. Verify both: run it with your change applied; then `git diff -- pyrex > /tmp/seed/<your dir>.p && git apply -R <that file>`, run it again, and re-apply with `git apply <that file>`. Do NOT use `git stash` (the stash is shared between worktrees and other people are working in sibling worktrees).
 5. Save the change as a unified diff: `cd {wt} && git diff -- pyrex > _seed/patch.diff` (the _seed directory itself is not part of the diff). Leave the change applied in the worktree.
 6. Write {wt}/_seed/meta.json with keys: "property" ("{pid}"), "summary" (one sentence: what was changed), "needs" (what specific sequence/input/configuration is needed for it to manifest), "files" (list of edited files).
 
